@@ -112,7 +112,7 @@ def main():
         cmd = [racebin, '-test.run', '^%s$' % cfg['race_test'], '-test.timeout', '%ds' % timeout, '-test.v']
         procs.append(('race', subprocess.Popen(cmd, env=env, stdout=log, stderr=subprocess.STDOUT, cwd=os.path.join(VERIF, 'mc')), log, 'race'))
 
-    reports, violations = [], []
+    reports, violations, racereports = [], [], []
     for i, p, log, kind in procs:
         rc = p.wait()
         log.close()
@@ -138,7 +138,10 @@ def main():
             shutil.copy(logp, keep)
             violations.append({'sig': '%s:%s' % (kindsig, case.split('\n')[0][:200]), 'msg': reason, 'replay': {'log': keep, 'case': case}})
             continue
-        reports.append(rep)
+        if kind == 'race':
+            racereports.append(rep)
+        else:
+            reports.append(rep)
         for v in (rep.get('violations') or []):
             violations.append(v)
         if kind == 'race' and rc == 66 and not (rep.get('violations') or []):
@@ -161,7 +164,7 @@ def main():
         for s in r.get('samples', [])[:3]:
             if len(cov['samples']) < 12:
                 cov['samples'].append(s)
-    cov['exhaustive'] = bool(reports) and all(r.get('exhaustive', False) for r in reports) and len(reports) == len(procs)
+    cov['exhaustive'] = bool(reports) and all(r.get('exhaustive', False) for r in reports) and len(reports) + len(racereports) == len(procs)
     cov['rule'] = reports[0].get('rule', '') if reports else ''
     cov['bounds'] = reports[0].get('bounds', {}) if reports else {}
     extra = {}
@@ -179,6 +182,8 @@ def main():
             else:
                 extra.setdefault(k, v)
     cov.update(extra)
+    for r in racereports:
+        cov['race_pass'] = {'runs': r.get('evaluations', 0), 'rule': r.get('rule', ''), 'sampling': True, 'extra': r.get('extra', {})}
     cov['shards'] = nsh
     cov['build_s'] = round(bt, 1)
     if 'transitions' not in cov and 'evaluations' in cov:
